@@ -9,6 +9,21 @@ impl CharInfo {
 
 pub open spec fn b2u(b: bool) -> u32 { if b { 1u32 } else { 0u32 } }
 
+// Bitwise operators are uninterpreted for the SMT solver outside `by (bit_vector)`; commutativity is made available everywhere so
+// that swapping the operands of `&` / `|` in the code (a harmless edit) does not break a proof.
+pub mod bitcomm {
+    use vstd::prelude::*;
+    verus! {
+    pub broadcast proof fn lemma_u32_and_comm(a: u32, b: u32)
+        ensures #[trigger] (a & b) == b & a,
+    { assert(a & b == b & a) by (bit_vector); }
+    pub broadcast proof fn lemma_u32_or_comm(a: u32, b: u32)
+        ensures #[trigger] (a | b) == b | a,
+    { assert(a | b == b | a) by (bit_vector); }
+    }
+}
+broadcast use {bitcomm::lemma_u32_and_comm, bitcomm::lemma_u32_or_comm};
+
 // assumed fact about core: `u32::from(bool)` is 0 / 1 (vstd carries no spec for this From impl)
 #[verifier::external_body]
 pub proof fn axiom_u32_from_bool(b: bool)
